@@ -101,6 +101,8 @@ pub fn run_check(prop: &str, tier: &str) -> i32 {
         "C04" => histex_check(prop, tier, &[hp("rot", 4, 5)], &["C04."], HX),
         "C05" => histex_check(prop, tier, &[hp("rotdel", 4, 5), hp("rot", 3, 4)], &["C05."], HX),
         "C06" => histex_check(prop, tier, &[hp("dis", 4, 6)], &["C06."], HX),
+        "C07" => crate::ftamper::check_c07(prop, tier),
+        "C08" => crate::ftamper::check_c08(prop, tier),
         "C09" => histex_check(prop, tier, &[hp("args", 3, 4), hp("rotdel", 3, 4), hp("dis", 3, 4), hp("failrot", 3, 4), hp("trace", 3, 4), hp("recaps", 2, 3)], &["C09."], HX),
         "C10" => histex_check(prop, tier, &[hp("failrot", 3, 4), hp("args", 3, 4), hp("trace", 3, 5)], &["C10."], HX),
         "C11" => {
@@ -109,6 +111,7 @@ pub fn run_check(prop: &str, tier: &str) -> i32 {
             crate::polmat::part(&mut run, tier == "thorough", &["C11."]);
             run.finish()
         }
+        "C12" => crate::ftamper::check_c12(prop, tier),
         "C13" => {
             let mut run = Run::new(prop, tier, "model_checking");
             histex_part(&mut run, tier, &[hp("rt", 4, 5), hp("edit", 3, 4), hp("trace", 3, 4)], &["C13."], HX);
